@@ -28,7 +28,14 @@ func (c *Ctx) PathIs(rule, key string, p *Prog, pos token.Pos, v ssa.Value, why 
 func PathOf(v ssa.Value) string {
 	rs := Roots(v)
 	if len(rs) == 1 {
-		s, _ := AccessPath(rs[0])
+		s, ok := AccessPath(rs[0])
+		if !ok && v != nil {
+			// the root is a computed value without a name; the value itself may still have
+			// one (a field of a grouping struct reads as that field)
+			if s2, ok2 := AccessPath(v); ok2 {
+				return s2
+			}
+		}
 		return s
 	}
 	var parts []string
